@@ -14,9 +14,9 @@ KINDS = {
     "unsigned": dict(type="unsigned", mk="7u", eq=True, arith=True, ordered=True, binary=True, labelled=True),
     "double": dict(type="double", mk="2.5", eq=True, arith=True, ordered=True, binary=True, labelled=True),
     "char": dict(type="char", mk="'x'", eq=True, arith=True, ordered=True, binary=True, labelled=True),
-    "string": dict(type="std::string", mk='std::string("a b")', eq=True, arith=False, ordered=True, binary=False, labelled=True),
-    "tag": dict(type="verifprog::TagEq", mk='verifprog::TagEq{3, "t"}', eq=True, arith=False, ordered=False, binary=False, labelled=True),
-    "plain": dict(type="verifprog::Plain", mk="verifprog::Plain{3, 0.5}", eq=False, arith=False, ordered=False, binary=True, labelled=True),
+    "string": dict(type="std::string", mk='std::string("a b")', eq=True, arith=False, ordered=True, binary=False, labelled=True, braced='"abc"'),
+    "tag": dict(type="verifprog::TagEq", mk='verifprog::TagEq{3, "t"}', eq=True, arith=False, ordered=False, binary=False, labelled=True, braced='{3, "t"}'),
+    "plain": dict(type="verifprog::Plain", mk="verifprog::Plain{3, 0.5}", eq=False, arith=False, ordered=False, binary=True, labelled=True, braced="{3, 0.5}"),
 }
 
 HEADERS = [
@@ -66,6 +66,11 @@ s("ctor_labeled_set", "DU", "std::set<BaseGraph::LabeledEdge<L>> a = {{0, 2, LAB
 s("size_resize_count", "DU", "G g(2); g.resize(5); (void)g.getSize(); (void)g.getEdgeNumber();")
 s("equality", "DU", "G g(2), h(2); g.addEdge(0, 1, LAB); bool a = g == h, b = g != h; (void)a; (void)b;", eq=True)
 s("addEdge_label", "DU", "G g(3); g.addEdge(0, 1, LAB); g.addEdge(0, 1, LAB, true); g.addEdge(1, 2, L(), false);")
+# the label written in place, as examples/edgelabeled_directedgraph.cpp does: graph.addEdge(0, 1, {"Company A", 10.});
+s("addEdge_braced", "DU", "G g(5); g.addEdge(0, 1, BRACED); g.addEdge(4, 3, BRACED, true); g.setEdgeLabel(0, 1, BRACED); g.setEdgeLabel(4, 3, BRACED, true); L a = g.getEdgeLabel(0, 1); (void)a;", braced=True)
+s("addReciprocalEdge_braced", "D", "G g(5); g.addReciprocalEdge(0, 1, BRACED); g.addReciprocalEdge(2, 3, BRACED, true);", braced=True)
+s("hasEdge_braced", "DU", "G g(5); g.addEdge(0, 1, BRACED); bool a = g.hasEdge(0, 1, BRACED); (void)a;", braced=True, eq=True)
+s("readme_example", "DU", "G graph(std::list<BaseGraph::Edge>{{0, 1}, {0, 3}, {1, 0}}); for (auto vertex : graph) (void)vertex; for (const auto &edge : graph.edges()) { (void)edge.first; (void)edge.second; } for (auto neighbour : graph.getOutNeighbours(0)) (void)neighbour;", unlabelled=True)
 s("addEdge_default", "DU", "G g(3); g.addEdge(0, 1); g.addEdge(0, 1, true); g.addEdge(1, 1, false);")
 s("addReciprocalEdge", "D", "G g(3); g.addReciprocalEdge(0, 1, LAB); g.addReciprocalEdge(0, 1, LAB, true); g.addReciprocalEdge(1, 2); g.addReciprocalEdge(1, 2, true);")
 s("hasEdge", "DU", "G g(3); g.addEdge(0, 1, LAB); bool a = g.hasEdge(0, 1); (void)a;")
@@ -164,6 +169,8 @@ def applicable(sn, kind):
         return False
     if r.get("tostring_default") and not (k["arith"] or not k["labelled"]):
         return False
+    if r.get("braced") and not k.get("braced"):
+        return False
     return True
 
 
@@ -191,6 +198,6 @@ def instances(kind):
                 pre = "typedef %s L; typedef %s<L> G; typedef BaseGraph::LabeledDirectedGraph<L> DIRECTED; const L LAB = %s; (void)LAB;" % (k["type"], tmpl, k["mk"])
                 pre += " (void)sizeof(DIRECTED);"
                 gt = tmpl
-            body = pre + "\n    " + sn["code"].replace("GT", gt)
+            body = pre + "\n    " + sn["code"].replace("GT", gt).replace("BRACED", k.get("braced", ""))
             out.append(("%s.%s.%s" % (sn["id"], sc, kind), body))
     return out
